@@ -29,7 +29,10 @@
       `pop`, and `pop` returns the stored CostTuple of STRICTLY SMALLEST cost, inside the first bucket
       `[mini, mini + maxi/k)` (C03_Cd_pop_near_min).  Together with C03_Cd_merge_slack_rat: a popped
       CostTuple is the cheapest stored one, and every index tuple it carries was pushed with a cost at
-      most 1 away from its cost — the slack the queue guarantees is exactly the merge tolerance.
+      most 1 away from its cost — the slack the queue guarantees is exactly the merge tolerance.  ONE STATEMENT
+      (C03_Cd_queue_slack, with C03_Cd_queue_slack_push): tracking every push `(cost, index tuple)` through the
+      merges, `pop` hands out the pushes of the cheapest CostTuple, each within 1 of its cost, and every
+      popped push is cheaper than every push still stored up to 2 cost units.
   NOT proved (compared on every case against the integer costs and exact probabilities computed by
   the harness, with the slack 16 of the pinned tests): that the search keeps its pushes inside the
   window (false: finding C02-F5); the order of the yielded sequence; prefix completeness.
@@ -37,6 +40,7 @@
 import PS.Model.Enum.ConstantDelay
 import PS.Proofs.Enum.CDQueue
 import PS.Proofs.Enum.CDOrder
+import PS.Proofs.Enum.CDSlack
 namespace PS.C03Cd
 open PS PS.CD
 
@@ -213,5 +217,31 @@ example : (do
     let (p3, _) ← q.pop
     pure [(p1.cost, p1.combs), (p2.cost, p2.combs), (p3.cost, p3.combs)]) =
     some [(100, [[0, 0], [1, 0]]), (150, [[0, 1]]), (1700, [[2, 2]])] := by decide +kernel
+
+/-! ### the slack the queue guarantees, in one statement -/
+
+/-- tracking (`Tracked q G`): `G` lists every stored CostTuple with the pushes `(cost, index tuple)` merged into
+    it; a group carries exactly the index tuples of its CostTuple and each member was pushed with a cost at most
+    1 away from the cost of the CostTuple.  A fresh queue is tracked by `[]`; `push` extends the tracking by
+    the pushes of the element, as a new group or inside ONE existing group -/
+theorem C03_Cd_queue_slack_push (b asserts : Bool) (q q' : Q Rat) (e : CT Rat) (G : List (CT Rat × List Push))
+    (hq : QWF q) (ht : Tracked q G) (h : q.push (ratA b) e asserts = some q') :
+    ∃ G', Tracked q' G' ∧ (G'.flatMap (·.2)).Perm (G.flatMap (·.2) ++ ghostOf e) :=
+  tracked_push b asserts q q' e G hq ht h
+
+/-- **THE SLACK OF THE QUEUE** (exact rationals): under the placement invariant, `pop` returns the CostTuple `p`
+    of strictly smallest cost together with its group `grp`: `p` carries exactly the index tuples of `grp`, each
+    of them was pushed with a cost within 1 of `p.cost`, and EVERY POPPED PUSH IS CHEAPER THAN EVERY PUSH THAT
+    STAYS IN THE QUEUE UP TO 2 COST UNITS (`m.1 < m'.1 + 2`; one unit = `precision` in log-probability).
+    Invariant and tracking are kept, so the statement holds along every run of pushes (inside the window),
+    updates and pops. -/
+theorem C03_Cd_queue_slack (q q' : Q Rat) (p : CT Rat) (G : List (CT Rat × List Push)) (hq : QOrd q)
+    (ht : Tracked q G) (h : q.pop = some (p, q')) :
+    ∃ grp G', G.Perm ((p, grp) :: G') ∧ Tracked q' G' ∧ QOrd q' ∧ p.combs = grp.map (·.2) ∧
+      (∀ m ∈ grp, m.1 - p.cost ≤ 1 ∧ p.cost - m.1 ≤ 1) ∧
+      ∀ m ∈ grp, ∀ pr' ∈ G', ∀ m' ∈ pr'.2, m.1 < m'.1 + 2 :=
+  tracked_pop q q' p G hq ht h
+
+example (q : Q Rat) (h : q.tuples = []) : Tracked q [] := tracked_empty q h
 
 end PS.C03Cd
